@@ -637,12 +637,7 @@ class _NumericOperationsImpl(OperationsBlock):
 
     @validate_core
     def max(self, x, *, axis=None, keepdims: bool = False):
-        if axis is None:
-            axes = []
-        elif not isinstance(axis, Iterable):
-            axes = [axis]
-        else:
-            axes = axis  # type: ignore
+        axes = _normalize_axes(axis, x.ndim)
 
         if isinstance(x.dtype, dtypes.NullableFloating):
             fill_value = ndx.asarray(
@@ -676,12 +671,7 @@ class _NumericOperationsImpl(OperationsBlock):
 
     @validate_core
     def min(self, x, *, axis=None, keepdims: bool = False):
-        if axis is None:
-            axes = []
-        elif not isinstance(axis, Iterable):
-            axes = [axis]
-        else:
-            axes = axis  # type: ignore
+        axes = _normalize_axes(axis, x.ndim)
 
         if isinstance(x.dtype, dtypes.NullableFloating):
             fill_value = ndx.asarray(
@@ -716,12 +706,7 @@ class _NumericOperationsImpl(OperationsBlock):
         dtype: dtypes.CoreType | dtypes.StructType | None = None,
         keepdims: bool = False,
     ):
-        if axis is None:
-            axes = []
-        elif not isinstance(axis, Iterable):
-            axes = [axis]
-        else:
-            axes = axis  # type: ignore
+        axes = _normalize_axes(axis, x.ndim)
 
         x = x.astype(_determine_reduce_op_dtype(x, dtype, dtypes.uint32))
 
@@ -813,12 +798,7 @@ class _NumericOperationsImpl(OperationsBlock):
         dtype: dtypes.StructType | dtypes.CoreType | None = None,
         keepdims: bool = False,
     ):
-        if axis is None:
-            axes = []
-        elif not isinstance(axis, Iterable):
-            axes = [axis]
-        else:
-            axes = axis  # type: ignore
+        axes = _normalize_axes(axis, x.ndim)
 
         x = x.astype(_determine_reduce_op_dtype(x, dtype, dtypes.uint64))
 
@@ -1001,6 +981,18 @@ class NumericOperationsImpl(CoreOperationsImpl, _NumericOperationsImpl): ...
 
 
 class NullableNumericOperationsImpl(NullableOperationsImpl, _NumericOperationsImpl): ...
+
+
+def _normalize_axes(axis, ndim: int) -> list[int]:
+    """Axes of a reduction as a list of non-negative integers (``[]`` for ``axis=None``).
+
+    onnxruntime's Reduce* kernels leave an input with a zero extent unreduced when the
+    axis is given as a negative number, so negative axes are resolved here.
+    """
+    if axis is None:
+        return []
+    axes = list(axis) if isinstance(axis, Iterable) else [axis]
+    return [a + ndim if a < 0 else a for a in axes]
 
 
 def _integral_or_boolean(*xs) -> bool:
